@@ -593,7 +593,7 @@ def c11(tier):
         ctx = s.ctx
         cli_unreachable_siblings(s)
         s.functions.update(n for n in ctx.bodies if re.search(r'read_xml|read_xsd|process_import|::extend|extend_no_duplicates|::read$', n) and '::tests::' not in n)
-        fams = [F.import_graph(3, 2), F.import_graph(2, 2, with_missing=True), F.import_nolocation(),
+        fams = [F.import_graph(3, 2), F.import_graph(2, 2, with_missing=True), F.import_nolocation(), F.imports_annotated(),
                 F.import_graph(slots=1, names=['a.xsd', 'b.xsd', 'B.xsd'], tag='imports-case-sensitive-names')]
         if tier == 'thorough':
             fams += [F.import_graph(4, 1), F.import_graph(2, 3), F.import_graph(3, 2, with_missing=True)]
@@ -2099,11 +2099,12 @@ def c17(tier):
         s.functions.update(['zeep::main', 'zeep_lib::utils::read_input_file_and_xsd_files_at_path'] + [n for n in ctx.bin_bodies])
         spelling = Selector('path_spelling', [('absolute', '/w/in', '/w/in/a.xsd'), ('relative-with-dir', '/w', 'in/a.xsd'), ('dot-slash', '/w/in', './a.xsd'),
                                               ('bare-name', '/w/in', 'a.xsd'), ('missing-file', '/w/in', 'nope.xsd')])
-        outarg = Selector('output_arg', [None, '/w/out/gen.rs', 'gen2.rs'])
+        outarg = Selector('output_arg', [None, '/w/out/gen.rs', 'gen2.rs', 'gen.txt', 'generated'])
         pre = Selector('preexisting_output', ['absent', 'shorter', 'longer'])
         content = Selector('input_content', list(INPUTS))
         sibling = Selector('sibling', ['readable', 'unreadable'])
-        inname = Selector('input_name', ['a.xsd', 'a.v2.xsd'])
+        # b.wsdl: the input shares its stem with the sibling b.xsd that it imports
+        inname = Selector('input_name', ['a.xsd', 'a.v2.xsd', 'b.wsdl'])
         OLD = {'absent': None, 'shorter': '// old\n', 'longer': '// old output\n' + '// padding line\n' * 4000}
         s.scenarios += 1
 
@@ -2125,7 +2126,7 @@ def c17(tier):
             argv = {'-i': sp[2]}
             if oa is not None:
                 argv['-o'] = oa
-            expected_out = vfs.abs(oa) if oa is not None else vfs.abs(sp[2][:-4] + '.rs' if sp[2].endswith('.xsd') else sp[2] + '.rs')
+            expected_out = vfs.abs(oa) if oa is not None else vfs.abs(posixpath.splitext(sp[2])[0] + '.rs')
             if OLD[pr] is not None:
                 vfs.files[expected_out] = OLD[pr]
             m.hooks.append(cli_hook(vfs, argv))
@@ -2213,7 +2214,7 @@ def c17(tier):
                 s.rep.inconc('ENCODING-MISMATCH %s: native rc=%s, output %s' % (key, rc, 'unchanged' if final == r['old'] else 'changed'))
     return run_e2('C17', tier, body, level='other',
                   bounds='path spelling in {absolute, relative with directory, ./name, bare name, missing file} x --output in {absent, absolute, relative} x pre-existing output in {absent, shorter, longer} '
-                         'x input in {good, malformed XML, unresolved import} x sibling readable/unreadable x input name with one or two dots: 540 combinations, all explored (selectors concretised by the solver).',
+                         'x input in {good, malformed XML, unresolved import} x sibling readable/unreadable x input name with one or two dots or sharing its stem with the imported sibling x output path with rs / another / no extension, all explored (selectors concretised by the solver).',
                   explanation='Claimed for the ordering / derivation logic of main and read_input_file_and_xsd_files_at_path only. Their MIR is executed over a model of clap (argument lookup) and of '
                               'std::path / std::fs (Path algebra per std\'s documented component semantics, a file-system map with create = truncate). Every run is compared with the library output '
                               'computed from the same MIR; every finding is replayed with the natively built zeep binary in a scratch directory. Real OS behaviour (permissions, symlinks, '
